@@ -10,16 +10,20 @@
 (*        single:   min(d[k,i], d[k,j])                                    *)
 (*        complete: max(d[k,i], d[k,j])                                    *)
 (*        average:  (d[k,i] + d[k,j]) / 2                                  *)
+(*        union:    the user distance applied to the UNION of the merged   *)
+(*                  sets; modelled with an additive weight per set and     *)
+(*                  the user distance |W(A) - W(B)|                        *)
 (* Distances are integers scaled by 2^N so that the repeated halving of    *)
-(* the average linkage stays exact.                                        *)
+(* the average linkage stays exact.  The k-th merge is addressable as      *)
+(* cluster index N + k; Indices is the reported leaf order.                *)
 (***************************************************************************)
 EXTENDS Integers, Sequences, FiniteSets, FiniteSetsExt, SequencesExt
 
 CONSTANTS N, Mode
 
-VARIABLES active, dist, nxt, merges
+VARIABLES active, dist, nxt, merges, wt     \* wt: weight of every cluster ever created (union mode)
 
-lvars == <<active, dist, nxt, merges>>
+lvars == <<active, dist, nxt, merges, wt>>
 
 Key(a, b) == IF a < b THEN <<a, b>> ELSE <<b, a>>
 Pairs(S) == {<<a, b>> \in S \X S : a < b}
@@ -32,32 +36,49 @@ Combine(x, y) ==
 SizeIn(ms, x) == IF x < N THEN 1 ELSE ms[x - N + 1].size
 
 (* the successor configuration after merging the active pair <<i, j>> *)
-After(act, d, nx, ms, i, j) ==
+Abs(x) == IF x < 0 THEN -x ELSE x
+
+After(act, d, nx, ms, w, i, j) ==
   LET rest == act \ {i, j}
+      w2   == [k \in DOMAIN w \cup {nx} |-> IF k = nx THEN w[i] + w[j] ELSE w[k]]
       d2   == [p \in Pairs(rest) \cup {<<k, nx>> : k \in rest} |->
-                 IF p[2] = nx THEN Combine(d[Key(p[1], i)], d[Key(p[1], j)]) ELSE d[p]]
-  IN [ active |-> rest \cup {nx}, dist |-> d2, nxt |-> nx + 1,
+                 IF p[2] = nx
+                   THEN IF Mode = "union" THEN Abs(w2[nx] - w2[p[1]]) ELSE Combine(d[Key(p[1], i)], d[Key(p[1], j)])
+                   ELSE d[p]]
+  IN [ active |-> rest \cup {nx}, dist |-> d2, nxt |-> nx + 1, wt |-> w2,
        merges |-> Append(ms, [lhs |-> i, rhs |-> j, dist |-> d[<<i, j>>], size |-> SizeIn(ms, i) + SizeIn(ms, j)]) ]
 
 MinPairs(act, d) == {p \in Pairs(act) : \A q \in Pairs(act) : d[p] <= d[q]}
 
-LInit(d0) == active = 0..(N - 1) /\ dist = d0 /\ nxt = N /\ merges = <<>>
+LInit(d0, w0) == active = 0..(N - 1) /\ dist = d0 /\ nxt = N /\ merges = <<>> /\ wt = w0
 
 Merge ==
   \E p \in MinPairs(active, dist) :
-     LET s == After(active, dist, nxt, merges, p[1], p[2]) IN
-     active' = s.active /\ dist' = s.dist /\ nxt' = s.nxt /\ merges' = s.merges
+     LET s == After(active, dist, nxt, merges, wt, p[1], p[2]) IN
+     active' = s.active /\ dist' = s.dist /\ nxt' = s.nxt /\ merges' = s.merges /\ wt' = s.wt
 
 (* all complete merge sequences from a configuration (ties branch) *)
-RECURSIVE Dendrograms(_, _, _, _)
-Dendrograms(act, d, nx, ms) ==
+RECURSIVE Dendrograms(_, _, _, _, _)
+Dendrograms(act, d, nx, ms, w) ==
   IF Cardinality(act) <= 1 THEN {ms}
-  ELSE UNION { LET s == After(act, d, nx, ms, p[1], p[2]) IN Dendrograms(s.active, s.dist, s.nxt, s.merges)
+  ELSE UNION { LET s == After(act, d, nx, ms, w, p[1], p[2]) IN Dendrograms(s.active, s.dist, s.nxt, s.merges, s.wt)
                : p \in MinPairs(act, d) }
+
+(* the reported leaf order: the original sets in the order in which the merges mention them *)
+RECURSIVE Indices(_, _)
+Indices(ms, k) ==
+  IF k > Len(ms) THEN <<>>
+  ELSE (IF ms[k].lhs < N THEN <<ms[k].lhs>> ELSE <<>>) \o (IF ms[k].rhs < N THEN <<ms[k].rhs>> ELSE <<>>) \o Indices(ms, k + 1)
 
 (* invariants of the machine *)
 Done == Cardinality(active) = 1
 SizesAddUp == Done => (N >= 2 => merges[Len(merges)].size = N) /\ Len(merges) = N - 1
+(* a binary tree over the inputs: every input and every intermediate cluster is merged exactly once, *)
+(* the k-th merge creates cluster N + k - 1 ... and the leaf order is a permutation of 0..N-1       *)
+TreeShape == Done =>
+  /\ {merges[k].lhs : k \in 1..Len(merges)} \cup {merges[k].rhs : k \in 1..Len(merges)} = 0..(2 * N - 3)
+  /\ \A k \in 1..Len(merges) : merges[k].lhs < N + k - 1 /\ merges[k].rhs < N + k - 1
+  /\ {Indices(merges, 1)[i] : i \in 1..Len(Indices(merges, 1))} = 0..(N - 1) /\ Len(Indices(merges, 1)) = N
 EachClusterOnce ==
   \A a, b \in 1..Len(merges) : a # b => {merges[a].lhs, merges[a].rhs} \cap {merges[b].lhs, merges[b].rhs} = {}
 (* single and complete linkage merge at non-decreasing distances *)
